@@ -5,11 +5,13 @@ package main
 // One cell = the SAME generated ammo file run through two real http providers (components/providers/http
 // NewProvider), preload off and on, with one consumer:
 //   fmt=uri tags=a,b,c cases=b,c limit=2 passes=0 cap=8 junk=0
-// `cases=-` = no chosencases; tags are drawn from a small alphabet so that subsets match several, one or no entry.
+// `cases=-` = no chosencases; `tags=-` = a file without entries; tags are drawn from a small alphabet so that subsets
+// match several, one or no entry.
 // Observation: for each side (s = streaming, p = preload) the delivered entry ids, whether the harness had to cut
 // the run at `cap`, what Run returned and what the consumer saw at the end; tagsok = every delivered ammo carried
 // the tag of its entry.
 //   s.seq=1,2 s.cut=0 s.run=nil s.end=closed p.seq=1,2 p.cut=0 p.run=nil p.end=closed tagsok=1
+// A file that NewProvider rejects is observed as run=construct end=norun on that side.
 
 import (
 	"fmt"
@@ -60,24 +62,30 @@ func line(format string, tags, cases []string, limit, passes int, junk bool) str
 	if junk {
 		j = 1
 	}
-	return fmt.Sprintf("fmt=%s tags=%s cases=%s limit=%d passes=%d cap=%d junk=%d", format, strings.Join(tags, ","), cs,
+	ts := "-"
+	if len(tags) > 0 {
+		ts = strings.Join(tags, ",")
+	}
+	return fmt.Sprintf("fmt=%s tags=%s cases=%s limit=%d passes=%d cap=%d junk=%d", format, ts, cs,
 		limit, passes, capFor(limit, passes, chosenCount(tags, cases), len(tags)), j)
 }
 
 func gen(r *rand.Rand, tier string) []string {
 	var out []string
 	// exhaustive small part: fixed files x all subsets of {a,b,c} plus a subset matching nothing
-	files := [][]string{{"a"}, {"a", "b"}, {"a", "b", "c"}, {"b", "a", "b"}, {"a", "a", "c", "b"}}
+	files := [][]string{{"a"}, {"a", "b"}, {"a", "b", "c"}, {"b", "a", "b"}, {"a", "a", "c", "b"}, {}}
 	subsets := [][]string{nil, {"a"}, {"b"}, {"c"}, {"a", "b"}, {"b", "c"}, {"a", "c"}, {"a", "b", "c"}, {"zz"}, {"c", "zz"}}
 	for _, f := range formats {
 		for fi, tags := range files {
 			for si, cases := range subsets {
-				for limit := 0; limit <= 3; limit++ {
-					for passes := 0; passes <= 2; passes++ {
-						nomatch := chosenCount(tags, cases) == 0
-						// streaming over a file from which nothing is chosen never ends when passes = 0 (watchdog
-						// time): keep a few such cells per format only
-						if nomatch && passes == 0 && !(fi == 2 && limit <= 1) {
+				for limit := 0; limit <= 4; limit++ {
+					for passes := 0; passes <= 3; passes++ {
+						if len(tags) == 0 && si > 1 && si < 8 {
+							continue // the empty file: no filter, one filter, the filters with zz
+						}
+						// nothing chosen and passes = 0 is where a broken streaming path never ends (watchdog
+						// time on such a tree): limits 0 and 1 only
+						if len(tags) > 0 && chosenCount(tags, cases) == 0 && passes == 0 && limit > 1 {
 							continue
 						}
 						out = append(out, line(f, tags, cases, limit, passes, (fi+si+limit+passes)%2 == 1))
@@ -86,15 +94,19 @@ func gen(r *rand.Rand, tier string) []string {
 			}
 		}
 	}
-	extra := 300
-	maxN := 8
+	extra := 4000
+	maxN := 9
 	if tier == "thorough" {
-		extra = 5000
-		maxN = 25
+		extra = 80000
+		maxN = 30
 	}
-	alphabet := []string{"a", "b", "c", "d", "e"}
+	// tags that are prefixes / case variants of each other: the filter must compare whole tags exactly
+	alphabet := []string{"a", "b", "c", "ab", "B"}
 	for i := 0; i < extra; i++ {
 		n := 1 + r.Intn(maxN)
+		if r.Intn(40) == 0 {
+			n = 0
+		}
 		tags := make([]string, n)
 		for j := range tags {
 			tags[j] = alphabet[r.Intn(len(alphabet))]
@@ -102,7 +114,7 @@ func gen(r *rand.Rand, tier string) []string {
 		var cases []string
 		switch r.Intn(6) {
 		case 0: // none
-		case 1: // matches nothing, bounded by passes so that both sides end
+		case 1: // matches nothing
 			cases = []string{"zz"}
 		default:
 			for _, a := range alphabet {
@@ -117,15 +129,15 @@ func gen(r *rand.Rand, tier string) []string {
 		limit, passes := 0, 0
 		switch r.Intn(5) {
 		case 0:
-			limit = 1 + r.Intn(3*n)
+			limit = 1 + r.Intn(3*n+1)
 		case 1:
 			passes = 1 + r.Intn(4)
 		case 2, 3:
 			passes = 1 + r.Intn(4)
 			limit = 1 + r.Intn(passes*n+2)
 		}
-		if chosenCount(tags, cases) == 0 && passes == 0 {
-			passes = 1 + r.Intn(3)
+		if n > 0 && chosenCount(tags, cases) == 0 && passes == 0 && r.Intn(4) != 0 {
+			passes = 1 + r.Intn(3) // see above: a quarter of these cells keeps passes = 0
 		}
 		out = append(out, line(formats[r.Intn(len(formats))], tags, cases, limit, passes, r.Intn(2) == 0))
 	}
@@ -151,14 +163,32 @@ func side(prefix string, o provcell.Obs) string {
 		cut = 1
 	}
 	if o.Construct != "" {
-		return fmt.Sprintf("%s.construct=%s", prefix, o.Construct)
+		return fmt.Sprintf("%s.seq=- %s.cut=0 %s.run=construct %s.end=norun", prefix, prefix, prefix, prefix)
 	}
 	return fmt.Sprintf("%s.seq=%s %s.cut=%d %s.run=%s %s.end=%s", prefix, seq, prefix, cut, prefix, o.Run, prefix, o.End)
 }
 
+func tagsOf(kv map[string]string) []string {
+	if kv["tags"] == "-" || kv["tags"] == "" {
+		return nil
+	}
+	return strings.Split(kv["tags"], ",")
+}
+
+// runCell: provcell.Run already repeats a cell that looks stuck once; a cell that still looks stuck is run a third
+// time with a slower watchdog (600 ms ticks), so that a stall of a loaded machine is never reported as a hang.
+func runCell(c provcell.Cell) provcell.Obs {
+	o := provcell.Run(c)
+	if o.Construct == "" && (o.End != "closed" || o.Run == "noreturn") {
+		c.Tick = 600 * time.Millisecond
+		o = provcell.Run(c)
+	}
+	return o
+}
+
 func run(input string) string {
 	kv := drv.KV(input)
-	tags := strings.Split(kv["tags"], ",")
+	tags := tagsOf(kv)
 	var cases []string
 	if kv["cases"] != "-" && kv["cases"] != "" {
 		cases = strings.Split(kv["cases"], ",")
@@ -169,8 +199,8 @@ func run(input string) string {
 			Tags: tags, Chosen: cases, Cons: 1, Cap: atoi(kv["cap"]), Junk: kv["junk"] == "1",
 		}
 	}
-	s := provcell.Run(mk(false))
-	p := provcell.Run(mk(true))
+	s := runCell(mk(false))
+	p := runCell(mk(true))
 	tagsok := 1
 	for _, o := range []provcell.Obs{s, p} {
 		for i, id := range o.Seq {
@@ -184,7 +214,7 @@ func run(input string) string {
 
 func class(input, obs string) string {
 	kv := drv.KV(input)
-	tags := strings.Split(kv["tags"], ",")
+	tags := tagsOf(kv)
 	var cases []string
 	if kv["cases"] != "-" {
 		cases = strings.Split(kv["cases"], ",")
@@ -192,6 +222,8 @@ func class(input, obs string) string {
 	f := chosenCount(tags, cases)
 	sel := "some"
 	switch {
+	case len(tags) == 0:
+		sel = "emptyfile"
 	case len(cases) == 0:
 		sel = "nofilter"
 	case f == 0:
@@ -221,7 +253,7 @@ func main() {
 		Workers: 24,
 		Timeout: 40 * time.Second,
 		Rule: "the same generated ammo file (uri, uripost, raw, jsonline objects, jsonline array) through the real http provider with preload off and on: " +
-			"5 fixed files x every subset of the tags {a,b,c} plus subsets matching nothing x limit 0..3 x passes 0..2, plus random files (tags from a 5-letter alphabet), " +
-			"random chosencases subsets and bounds; class = format / filter shape / bound shape",
+			"5 fixed files and the empty file x every subset of the tags {a,b,c} plus subsets matching nothing x limit 0..4 x passes 0..3, plus random files (tags from {a,b,c,ab,B}), " +
+			"random chosencases subsets (incl. nothing-matching) and bounds; class = format / filter shape / bound shape",
 	})
 }
